@@ -249,7 +249,11 @@ def replay_rb(job):
             elif rolled and variant == "rebuilt_each":
                 if not rebuild("after re-reported epoch %d" % cur):
                     return out
-                sim.load_epoch(cur)
+                try:
+                    sim.load_epoch(cur)
+                except Exception as ex:  # the library's call, not the driver's: a rebuilt controller must know epoch `cur`
+                    bad("load_model_and_optimizer_for_epoch", "exception", "a rebuilt controller loading epoch %d raised %r" % (cur, ex))
+                    return out
             try:
                 cont = sim.update(row, epoch=e if (rolled or variant != "same") else None)
             except Exception as ex:
